@@ -83,7 +83,13 @@ def shape(ct, S: Any, cls: str, props_cls: Optional[str] = None) -> List[Any]:
 
 def float_range(x: Any) -> Any:
     """representation invariant of the float model: a finite float lies within +-DBL_MAX"""
-    return M.inp(x)      # closed under list items / dict values / schema props by axioms (model.base_axioms)
+    return z3.Or(z3.Not(M.is_FloatV(x)), z3.And(M.fval(x) <= M.DBL_MAX, M.fval(x) >= -M.DBL_MAX))
+
+
+def deep_range(x: Any) -> Any:
+    """the same for every float reachable from x (list items, dict values, schema props): the predicate
+    model.inp, closed under those accessors by axioms"""
+    return M.inp(x)
 
 
 def nil_or(x: Any, pred: Any) -> Any:
@@ -358,12 +364,32 @@ def reach_def(ct, cls: str, Sx: Any, regex_maxlen_fixed: bool = True) -> List[An
     return f
 
 
+def _pattern_ok(t: Any) -> bool:
+    from pyvc.executor import pattern_ok
+    return pattern_ok(t)
+
+
 def registry_is(ct, cls: str, R: Any, Sx: Any, upd: Dict[str, Any]) -> Any:
     """R is a `cls` instance whose props *view* (what Props.get returns for every prop name of the
     class; a missing key and a stored Nil are the same observation) is Sx's view updated with `upd`."""
     conj = list(shape(ct, R, cls))
+    j = z3.Int("rj3")
     for n in PROP_NAMES[cls]:
-        conj.append(prop(R, n) == (upd[n] if n in upd else prop(Sx, n)))
+        want = upd[n] if n in upd else prop(Sx, n)
+        got = prop(R, n)
+        if n == "elements":
+            # a list-valued prop is compared by content (the schema keeps its own copy of the list)
+            def same_as(w: Any) -> Any:
+                if z3.is_app(w) and w.decl().kind() == z3.Z3_OP_ITE:
+                    c_, a_, b_ = w.children()
+                    return z3.If(c_, same_as(a_), same_as(b_))
+                content = z3.And(M.isinstance_f(ct, got, "list"), M.llen(got) == M.llen(w),
+                                 z3.ForAll([j], z3.Implies(z3.And(0 <= j, j < M.llen(w)), M.lat(got, j) == M.lat(w, j)),
+                                           patterns=[M.lat(got, j)] + ([M.lat(w, j)] if _pattern_ok(w) else [])))
+                return z3.If(M.isinstance_f(ct, w, "list"), content, got == w)
+            conj.append(same_as(want))
+        else:
+            conj.append(got == want)
     return z3.And(*conj)
 
 
